@@ -96,4 +96,56 @@ def run (s : SSys) : List (Nat × Op) → SSys × List (Option Out)
     let r2 := run r.1 rest
     (r2.1, r.2 :: r2.2)
 
+/-! ### validity of a history, judged on the specified state only
+
+The property quantifies over histories "in which no step asks for more elements than the capacity and
+every index/position argument is valid".  Whether a step is valid is decided here from the *spec*
+state — the sizes and contents the standard prescribes — never by running the model.  An object whose
+value the standard leaves unspecified (moved-from) has no known size: only operations whose
+precondition does not mention the current contents may be applied to it. -/
+
+/-- operations whose documented precondition does not depend on the current value of the object -/
+def stateFree : Op → Bool
+  | .resize _ => true
+  | .resizeVal .. => true
+  | .assignFill .. => true
+  | .assignRange _ => true
+  | .clear => true
+  | .ctorN _ => true
+  | .ctorNVal .. => true
+  | .ctorRange _ => true
+  | .eraseVal _ => true
+  | .eraseIf .. => true
+  | .tryPush .. => true
+  | .dump => true
+  | _ => false
+
+/-- the documented precondition of `op` on object `k`, read off the spec state -/
+def validPre (s : SSys) (k : Nat) (op : Op) : Bool :=
+  k < s.objs.length &&
+  match op with
+  | .copyCtor j => j < s.objs.length && j != k
+  | .moveCtor j => j < s.objs.length && j != k
+  | .copyAssign j => j < s.objs.length
+  | .moveAssign j => j < s.objs.length
+  | .swap j => j < s.objs.length
+  | .cmp j => j < s.objs.length
+  | op => match getObj s k with
+    | some l => valid1 s.cap op l
+    | none => stateFree op && valid1 s.cap op []
+
+/-- … and the type `ty` has the member -/
+def valid (ty : Ty) (s : SSys) (k : Nat) (op : Op) : Bool := supports ty op && validPre s k op
+
+/-- every step of the history is valid in the spec state it is applied to -/
+def validHist (ty : Ty) (s : SSys) : List (Nat × Op) → Bool
+  | [] => true
+  | (k, op) :: rest => valid ty s k op && validHist ty (step s k op).1 rest
+
+/-- what the standard container corresponding to `ty` offers: `std::vector` / `std::stack` the members
+    of `static_vector` / `stack`, `std::inplace_vector` ([inplace.vector]) every operation of the list -/
+def offers : Ty → Op → Bool
+  | .ipv, _ => true
+  | ty, op => supports ty op
+
 end Tetl.C01.Spec
